@@ -5,14 +5,14 @@ from .. import standalone as sa
 def run(ck):
     asan = ck.build("asan", ["ser_mon"])["ser_mon"]
     thorough = ck.tier == "thorough"
-    n = int((3500 if thorough else 105) * ck.scale)
+    n = int((1200 if thorough else 105) * ck.scale)
     jobs = []
     for i in range(16):
         jobs.append(dict(exe=asan, args=["--mode", "run", "--cases", n, "--seed", sa.subseed(ck, i)], label="run%d" % i, timeout=7200))
     if thorough:
         # every mutation of every archive (--all) costs several hundred times a sampled case (about 20 s each): many short jobs so that all cores stay busy
         for i in range(32):
-            jobs.append(dict(exe=asan, args=["--mode", "run", "--cases", max(1, n // 250), "--seed", sa.subseed(ck, 100 + i), "--all"], label="all%d" % i, timeout=7200))
+            jobs.append(dict(exe=asan, args=["--mode", "run", "--cases", max(1, n // 85), "--seed", sa.subseed(ck, 100 + i), "--all"], label="all%d" % i, timeout=7200))
     if thorough:
         plain = ck.build("plain", ["ser_mon"])["ser_mon"]
         for i in range(4):
@@ -32,4 +32,4 @@ def run(ck):
               "load(save(v))==v via >>, & and serialization_traits; then every truncation, every 4-byte length field set to 28 boundary values (true+-1..4, remaining+-k, 0, 2^31, 2^32-1..4, wrap-around), "
               "tails cut 1..3 bytes short, bit flips, random bytes, other types' archives: load must throw or agree with the strict shadow reader; ASan+UBSan on. non-trivial = distinct (type, archive) pairs",
               "evaluations_total", "archives", min_evals=20000,
-              required_nonzero=("roundtrips", "malformed_loads", "malformed_accepted", "malformed_rejected", "serialization_traits_roundtrips"))
+              required_nonzero=("roundtrips", "malformed_loads", "malformed_accepted", "malformed_rejected", "serialization_traits_roundtrips", "json_values_with_arbitrary_doubles"))
